@@ -15,6 +15,7 @@ if TYPE_CHECKING:
 
 from autoarray.structures.arrays import array_2d_util
 from autoconf import conf
+from autoconf import cached_property
 
 
 def to_new_array(func):
@@ -81,9 +82,7 @@ class AbstractNDArray(ABC):
     __no_flatten__ = ()
 
     def invert(self):
-        new = self.copy()
-        new._array = np.invert(new._array)
-        return new
+        return self.with_new_array(np.invert(self._array))
 
     @classmethod
     def instance_flatten(cls, instance):
@@ -135,6 +134,13 @@ class AbstractNDArray(ABC):
         """
         new_array = self.copy()
         new_array._array = array
+
+        # Cached properties were computed from the old array, so they are not carried over to the new object.
+        cls = type(new_array)
+        for name in list(new_array.__dict__):
+            if isinstance(getattr(cls, name, None), cached_property):
+                del new_array.__dict__[name]
+
         return new_array
 
     def copy(self):
